@@ -23,14 +23,14 @@ CHECKS = {
     "C18": dict(
         engine="E2-primitive-explorer",
         technique="exhaustive enumeration of all arrays over {0,1,2} x all masks x all axis subsets / all contiguous segmentations / all variable layouts on the real primitives (jit+vmap and eager), nested-loop reference; fused clause over an expression x vector-length alphabet and every Family_1 model",
-        text="argmax: every array over {0,1,2} (and {-inf,0,1.5}) of shapes up to 6 cells, every mask, every non-empty axis subset, jitted+vmapped and eagerly; segment_argmax: every contiguous segmentation of <= 5 rows (0-2 trailing axes) x every array over {0,1,2}; reducers built by get_solve_discrete_problem for all 100+ layouts of restricted/unrestricted states and choices derived from real processed models; fused-input clause: arg-max taken inside the same jit as 8 expressions x 15 SIMD-remainder lengths, and the real policy functions of every Family_1 model on all grid states. Over 1e6 oracle evaluations, all enumerated, none sampled.",
+        text="Axis tuples are enumerated in ascending AND every non-ascending order. argmax: every array over {0,1,2} (and {-inf,0,1.5}) of shapes up to 6 cells, every mask, every non-empty axis subset, jitted+vmapped and eagerly; segment_argmax: every contiguous segmentation of <= 5 rows (0-2 trailing axes) x every array over {0,1,2}; reducers built by get_solve_discrete_problem for all 100+ layouts of restricted/unrestricted states and choices derived from real processed models; fused-input clause: arg-max taken inside the same jit as 8 expressions x 15 SIMD-remainder lengths, and the real policy functions of every Family_1 model on all grid states. Over 1e6 oracle evaluations, all enumerated, none sampled.",
         note="XLA's fusion decisions cannot be enumerated; the fused clause is bounded by the expression/length alphabet and the model family",
         design="§4 C18",
     ),
     "C19": dict(
         engine="E2-primitive-explorer",
         technique="exhaustive enumeration of all signatures (<=4 params, 3 kinds) x all ordered subsets of mapped names x output pytrees on the real dispatchers/wrappers; nested Python loops with an injective positional code as reference",
-        text="productmap, vmap_1d, spacemap and the functools wrappers are run for every signature with 1-4 parameters (thorough 5) of the three parameter kinds in every legal order, every ordered subset of mapped names, every dense/sparse/put_dense_first split, scalar/tuple/dict outputs, every keyword order, every positional/keyword split and every single missing, unexpected or duplicated argument; each result is compared entry by entry with nested loops.",
+        text="Wrappers are additionally run on f(a,b,c) with every legal pattern of defaulted and keyword-only parameters x every ordered subset of supplied keywords (reject or bind by name). productmap, vmap_1d, spacemap and the functools wrappers are run for every signature with 1-4 parameters (thorough 5) of the three parameter kinds in every legal order, every ordered subset of mapped names, every dense/sparse/put_dense_first split, scalar/tuple/dict outputs, every keyword order, every positional/keyword split and every single missing, unexpected or duplicated argument; each result is compared entry by entry with nested loops.",
         note="*args/**kwargs signatures are outside the alphabet; vmap_1d is called directly only for signatures without keyword-only parameters",
         design="§4 C19",
     ),
